@@ -7,6 +7,7 @@ import (
 	"strings"
 	"time"
 
+	cluster "github.com/envoyproxy/go-control-plane/envoy/config/cluster/v3"
 	route "github.com/envoyproxy/go-control-plane/envoy/config/route/v3"
 	meshconfig "istio.io/api/mesh/v1alpha1"
 	networking "istio.io/api/networking/v1alpha3"
@@ -183,5 +184,47 @@ func VerifC14Twin() {
 		for _, y := range d2 {
 			vp.Assert(x != y, "twin")
 		}
+	}
+}
+
+// K2: cluster names within one CDS response are unique: normalizeClusters keeps the first cluster of every name,
+// in order, and drops nothing else.
+func VerifC14ClusterNames() {
+	n := 3 + vp.Tier()
+	var in []*cluster.Cluster
+	for i := 0; i < n; i++ {
+		in = append(in, &cluster.Cluster{Name: vp.StringIn(vp.Name("cluster", i)+".name", 2, "ab|")})
+	}
+	cb := &ClusterBuilder{req: &model.PushRequest{Push: model.NewPushContext()}, proxyID: "p"}
+	out := cb.normalizeClusters(in)
+	vp.Reach("normalized")
+	for i, a := range out {
+		for _, b := range out[i+1:] {
+			vp.Assert(a.Name != b.Name, "cluster-names-are-unique")
+		}
+	}
+	// every input is represented by the FIRST cluster of its name, order preserved
+	pos := -1
+	for _, c := range out {
+		idx := -1
+		for i, x := range in {
+			if x == c {
+				idx = i
+			}
+		}
+		vp.Assert(idx > pos, "normalize-keeps-input-order")
+		pos = idx
+		for i, x := range in {
+			if i < idx {
+				vp.Assert(x.Name != c.Name, "normalize-keeps-the-first-cluster-of-a-name")
+			}
+		}
+	}
+	for _, x := range in {
+		found := false
+		for _, c := range out {
+			found = vp.Or(found, c.Name == x.Name)
+		}
+		vp.Assert(found, "normalize-drops-only-duplicates")
 	}
 }
